@@ -162,11 +162,12 @@ class Live(JupyterMixin, RenderHook):
                 self.vertical_overflow = "visible"
                 if not self.console.is_jupyter:
                     self.refresh()
-                if self.console.is_terminal:
-                    self.console.line()
             finally:
+                # text pending in a redirected stream is flushed here, while the hook can still reposition the frame
                 self._disable_redirect_io()
                 self.console.pop_render_hook()
+                if self.console.is_terminal:
+                    self.console.line()
                 self.console.show_cursor(True)
 
             if self.transient:
